@@ -24,6 +24,20 @@ from .icommon import (MAX_DEPTH, MAX_PATHS, PathAbort, _Break, _Continue, _Raise
 from .interp_expr import ExprMixin
 
 
+def _snapshot(v: V) -> V:
+    """Lists are mutable: remember what was returned, not what the caller made of it later."""
+    if isinstance(v, PyList):
+        n = PyList(list(v.items))
+        n.loop_parts = [(o, list(per)) for o, per in v.loop_parts]
+        n.created_in = v.created_in
+        if hasattr(v, "_minextra"):
+            n._minextra = v._minextra  # type: ignore[attr-defined]
+        return n
+    if isinstance(v, AbsList):
+        return AbsList(v.elem, v.minlen)
+    return v
+
+
 @dataclass
 class Event:
     kind: str
@@ -198,8 +212,8 @@ class Interp(ExprMixin):
         self.trace.append((c, n))
         return c
 
-    def event(self, kind: str, **data):
-        self.events.append(Event(kind, data, self.cur_where))
+    def event(self, _evkind: str, **data):
+        self.events.append(Event(_evkind, data, self.cur_where))
 
     def cond(self, key: str, val: Any):
         self.conds.append((key, val))
@@ -223,9 +237,13 @@ class Interp(ExprMixin):
         if depth >= 2 or len(self.stack) >= self.inline_depth + 4:
             if depth >= 2:
                 self.event("recursion", func=key)
+                self.shared.setdefault("recursive_keys", set()).add(key)
                 s = self.summaries.get(key)
                 if s is None:
                     raise PathAbort()
+                s = _snapshot(s)
+                if isinstance(s, AbsList):
+                    s.created_in = "summary"  # type: ignore[attr-defined]
                 return s
             return Sym("deepcall", key)
         env = dict(closure or {})
@@ -247,7 +265,7 @@ class Interp(ExprMixin):
                 v = r.v
             if is_gen:
                 v = env["__yield__"]
-            self.observed_returns.setdefault(key, []).append(v)
+            self.observed_returns.setdefault(key, []).append(_snapshot(v))
             return v
         finally:
             self.stack.pop()
@@ -405,12 +423,26 @@ class Interp(ExprMixin):
                     seq = head + [PyList(mid)] + tail
                 else:
                     seq = None
+                absl = self.resolve_alt(v)
                 for i, e in enumerate(target.elts):
-                    tv = seq[i] if seq is not None else Sym("elem", v, i)
+                    if seq is not None:
+                        tv = seq[i]
+                    elif isinstance(absl, (AbsList, ListV)):
+                        tv = AbsList(absl.elem, max(0, self.list_minlen(absl) - (len(target.elts) - 1))) \
+                            if isinstance(e, ast.Starred) else absl.elem
+                    else:
+                        tv = Sym("elem", v, i)
                     self.assign(e.value if isinstance(e, ast.Starred) else e, tv, env, module)
             else:
+                absl = self.resolve_alt(v)
                 for i, e in enumerate(target.elts):
-                    self.assign(e, items[i] if isinstance(items, list) else Sym("elem", v, i), env, module)
+                    if isinstance(items, list):
+                        tv = items[i]
+                    elif isinstance(absl, (AbsList, ListV)):
+                        tv = absl.elem
+                    else:
+                        tv = Sym("elem", v, i)
+                    self.assign(e, tv, env, module)
         elif isinstance(target, ast.Attribute):
             base = self.eval(target.value, env, module)
             self.store_attr(base, target.attr, v, module, target)
